@@ -14,7 +14,7 @@ Open Scope N_scope.
 Module UnparseEx.
   (** prog -v (Count)  -q/--qu (SetTrue)  -o/--opt <v> (Append)  -s/--set <v> (Set)
            -m/--mu <v>{1..3} (Append, delimiter ',')  -y/--yy [<v>] (Set, 0..1, default-missing "d")
-           <f> (positional 1, one value)  <r>... (positional 2, 1.. values, Append) *)
+           <f> (positional 1, one value)  <r>... (positional 2, 1.. values, Append)  -é (SetTrue; a two-byte short name) *)
   Definition v : arg := (arg_new [118]) <| a_short := Some 118 |> <| a_action := Some ACount |>.
   Definition q : arg := (arg_new [113]) <| a_short := Some 113 |> <| a_long := Some [113; 117] |> <| a_action := Some ASetTrue |>.
   Definition o : arg := (arg_new [111]) <| a_short := Some 111 |> <| a_long := Some [111; 112; 116] |> <| a_action := Some AAppend |>.
@@ -25,10 +25,11 @@ Module UnparseEx.
                           <| a_num := Some {| vmin := 0; vmax := 1 |} |> <| a_default_missing := [[100]] |>.
   Definition f : arg := arg_new [102].
   Definition r : arg := (arg_new [114]) <| a_num := Some {| vmin := 1; vmax := usize_max |} |>.
-  Definition c0 : cmd := (cmd_new [112]) <| c_args := [v; q; o; s; m; y; f; r] |>.
+  Definition e : arg := (arg_new [101]) <| a_short := Some 233 |> <| a_action := Some ASetTrue |>.
+  Definition c0 : cmd := (cmd_new [112]) <| c_args := [v; q; o; s; m; y; f; r; e] |>.
   Definition c : cmd := build_self c0.
 
-  (** --qu F -vvoAB --opt=== --mu A B,C -vm A -s= R S --yy -v T *)
+  (** --qu F -vvoAB --opt=== --mu A B,C -vm A -s= R S --yy -v T -é *)
   Definition its : list item :=
     [ItLong [113; 117];
      ItPos [[70]];
@@ -40,7 +41,8 @@ Module UnparseEx.
      ItPos [[82]; [83]];
      ItLongSep [121; 121] [];
      ItCluster [118] TNone;
-     ItPos [[84]]].
+     ItPos [[84]];
+     ItCluster [233] TNone].
   Definition wf := wf_items c PSValuesDone 1 its.
 
   Example ex_valid : valid c0 = true. Proof. vm_compute. reflexivity. Qed.
@@ -50,7 +52,7 @@ Module UnparseEx.
   Example ex_wf : wf_items c PSValuesDone 1 its = true. Proof. vm_compute. reflexivity. Qed.
   Example ex_render : render its =
     [[45; 45; 113; 117]; [70]; [45; 118; 118; 111; 65; 66]; [45; 45; 111; 112; 116; 61; 61; 61];
-     [45; 45; 109; 117]; [65]; [66; 44; 67]; [45; 118; 109]; [65]; [45; 115; 61]; [82]; [83]; [45; 45; 121; 121]; [45; 118]; [84]].
+     [45; 45; 109; 117]; [65]; [66; 44; 67]; [45; 118; 109]; [65]; [45; 115; 61]; [82]; [83]; [45; 45; 121; 121]; [45; 118]; [84]; [45; 195; 169]].
   Proof. vm_compute. reflexivity. Qed.
 
   Definition groups_after (toks : list bytes) (i : id) : option (option groups) :=
@@ -63,7 +65,8 @@ Module UnparseEx.
     groups_after (render its) [118] = Some (Some [[[52]]]) /\
     groups_after (render its) [113] = Some (Some [[s_true]]) /\
     groups_after (render its) [102] = Some (Some [[[70]]]) /\
-    groups_after (render its) [114] = Some (Some [[[82]; [83]]; [[84]]]).
+    groups_after (render its) [114] = Some (Some [[[82]; [83]]; [[84]]]) /\
+    groups_after (render its) [101] = Some (Some [[s_true]]).
   Proof. vm_compute. repeat split; reflexivity. Qed.
   Example ex_denote :
     denote_arg c [111] its = Some [[[65; 66]]; [[61; 61]]] /\
@@ -119,11 +122,12 @@ Module UnparseEx.
     denote_idx c [111] its = Some [6; 8] /\ idx_after (render its) [111] = Some (Some [6; 8]) /\
     denote_idx c [109] its = Some [10; 11; 12; 15] /\ idx_after (render its) [109] = Some (Some [10; 11; 12; 15]) /\
     denote_idx c [114] its = Some [18; 19; 23] /\ idx_after (render its) [114] = Some (Some [18; 19; 23]) /\
-    denote_idx c [118] its = Some [22] /\ idx_after (render its) [118] = Some (Some [22]).
+    denote_idx c [118] its = Some [22] /\ idx_after (render its) [118] = Some (Some [22]) /\
+    denote_idx c [101] its = Some [24] /\ idx_after (render its) [101] = Some (Some [24]).
   Proof. vm_compute. repeat split; reflexivity. Qed.
   Example ex_events : events c its =
     [([113], [1]); ([102], [2]); ([118], [3]); ([118], [4]); ([111], [6]); ([111], [8]); ([109], [10; 11; 12]);
-     ([118], [13]); ([109], [15]); ([115], [17]); ([114], [18; 19]); ([121], [21]); ([118], [22]); ([114], [23])].
+     ([118], [13]); ([109], [15]); ([115], [17]); ([114], [18; 19]); ([121], [21]); ([118], [22]); ([114], [23]); ([101], [24])].
   Proof. vm_compute. reflexivity. Qed.
 
   (** [--] and what follows: prog --qu --mu A -- F -x R   (after [--] the token [-x] is a value) *)
